@@ -65,6 +65,21 @@ def gen_ext_history(rng, length):
         c = new("points")
         ops.append({"op": "create", "id": c, "cls": "points", "parent": g, "ws": 0, "n": 3})
 
+    def pattern_mixed_removal():
+        # one remove_children call that names children of different kinds (an object and a sub-group, in either order), then
+        # the listing getters that sweep the detached entities, then a re-open
+        g = new("group")
+        ops.append({"op": "create", "id": g, "cls": "group", "parent": g0, "ws": 0})
+        kinds = rng.shuffle(["points", "group", rng.choice(["curve", "group", "points"])])
+        for k in kinds:
+            c = new(k)
+            ops.append({"op": "create", "id": c, "cls": k, "parent": g, "ws": 0, "n": 3})
+        ops.append({"op": "rm_children", "obj": g, "seed": rng.below(1000), "k": 3, "pg_first": False, "all": True})
+        for kind in rng.shuffle(["groups", "objects"]):
+            ops.append({"op": "listing", "kind": kind})
+        if rng.chance(60):
+            ops.append({"op": "reopen"})
+
     def pattern_cold_update():
         # state assigned in one session is UPDATED as the first thing of the next session, before anything was read back
         # (lazy loaders: the update must act on what the file holds, not on an empty cache)
@@ -79,7 +94,8 @@ def gen_ext_history(rng, length):
                 ops.append({"op": "reopen"})
                 ops.append({"op": "meta", "e": e, "v": v2 + 1})
 
-    patterns = [p for p, c in ((pattern_type_churn, 30), (pattern_unnamed_pgs, 15), (pattern_deferred_save, 25), (pattern_cold_update, 25))
+    patterns = [p for p, c in ((pattern_type_churn, 30), (pattern_unnamed_pgs, 15), (pattern_deferred_save, 25), (pattern_cold_update, 25),
+                                  (pattern_mixed_removal, 25))
                 if rng.chance(c)]
     at = {rng.range(len(ops), max(len(ops), length - 8)): p for p in patterns}
     while len(ops) < length:
@@ -407,6 +423,8 @@ class ExtImpl:
                     return "skipped", info
                 ch = list(ob.children)
                 sel = [ch[i] for i in sorted(set(R.randint(0, len(ch), op["k"]).tolist()))]
+                if op.get("all"):
+                    sel = [c for c in ch if not isinstance(c, PropertyGroup)]
                 if op.get("pg_first"):  # a property group listed before the data sets it does not contain
                     pgs = [c for c in ch if isinstance(c, PropertyGroup)]
                     if pgs:
@@ -636,8 +654,18 @@ def gen_dh_history(rng, length):
         ops.append({"op": "dh_group", "id": g, "name": f"dh{rng.below(2)}"})
     while len(ops) < length:
         w = rng.weighted([("dh_group", 8), ("hole", 20), ("data", 25), ("update", 12), ("rm_data", 6), ("rm_hole", 5),
-                          ("copy_ws", 8), ("listing", 10), ("reopen", 6)])
-        if w == "dh_group":
+                          ("copy_ws", 8), ("listing", 10), ("reopen", 6), ("lookup_miss", 4), ("rm_nonchild", 4)])
+        if w == "lookup_miss" and groups:
+            # a look-up that finds nothing (no mutation), usually closing the session right away
+            ops.append({"op": "dh_lookup_miss", "group": rng.choice(groups), "seed": rng.below(1000)})
+            if rng.chance(60):
+                ops.insert(len(ops) - 1, {"op": "reopen"})
+                ops.append({"op": "reopen"})
+        elif w == "rm_nonchild" and groups and (data or len(groups) >= 2 and holes):
+            # group.remove_children(x) where x is NOT a child of that group (a data set of one of its holes, or a hole of
+            # another group): nothing may change anywhere
+            ops.append({"op": "dh_rm_nonchild", "group": rng.choice(groups), "x": rng.choice(data + holes)})
+        elif w == "dh_group":
             g = new()
             groups.append(g)
             ops.append({"op": "dh_group", "id": g, "name": f"dh{rng.below(2)}"})
@@ -665,8 +693,12 @@ def gen_dh_history(rng, length):
     if groups and rng.chance(50):
         # forced pattern: source re-opened (concatenated data not loaded), copied to the other workspace, then a listing
         # getter (or a removal) runs on the SOURCE
+        # (self-contained: a fresh group with a hole and data, so that the copy is never skipped and has types to lose)
+        gs, h, d = new(), new(), new()
+        ops += [{"op": "dh_group", "id": gs, "name": f"dh{rng.below(2)}"}, {"op": "hole", "id": h, "group": gs, "seed": rng.below(1000)},
+                {"op": "hole_data", "id": d, "hole": h, "name": rng.choice(["au", "cu"]), "n": rng.range(1, 4), "seed": rng.below(1000)}]
         g = new()
-        ops += [{"op": "reopen"}, {"op": "dh_copy", "id": g, "group": rng.choice(groups)}]
+        ops += [{"op": "reopen"}, {"op": "dh_copy", "id": g, "group": gs}]
         ops.append({"op": "dh_listing", "ws": 0, "kind": "types"} if rng.chance(60) or not data else {"op": "dh_rm", "e": rng.choice(data)})
     ops.append({"op": "reopen"})
     return ops
@@ -755,6 +787,25 @@ class DhImpl(ExtImpl):
                 _ = getattr(self.ws[op["ws"]], op["kind"])
                 del _
                 info.update(ws=op["ws"], listing=True)
+            elif o == "dh_lookup_miss":
+                import uuid as _uuid
+
+                g = self.ent(op["group"])
+                if g is None:
+                    return "skipped", info
+                _ = g.get_concatenated_attributes(_uuid.UUID(int=10**30 + op["seed"]))
+                del _, g
+                info.update(ws=self.uid[op["group"]][0], lookup=True, no_mutation=True)
+            elif o == "dh_rm_nonchild":
+                g, x = self.ent(op["group"]), self.ent(op["x"])
+                if g is None or x is None or any(c is x for c in g.children) or self.uid[op["group"]][0] != self.uid[op["x"]][0]:
+                    return "skipped", info
+                info.update(ws=self.uid[op["group"]][0], no_mutation=True)
+                try:
+                    g.remove_children([x])
+                except (ValueError, KeyError, UserWarning) as e:   # refusing loudly is fine as long as nothing changed
+                    info["raised"] = type(e).__name__
+                del g, x
             else:
                 raise ValueError(o)
         finally:
@@ -827,6 +878,19 @@ def run_dh_history(ops, work, tag):
     return {"dh": True, "steps": steps, "digests": dig, "type_refs": refs}
 
 
+def _polluted_session(ops):
+    """some session (ops between two re-opens, the current one included) holds a look-up miss together with a mutating op"""
+    sess = []
+    for o in ops + [{"op": "reopen"}]:
+        if o["op"] == "reopen":
+            if "dh_lookup_miss" in sess and any(x not in ("dh_lookup_miss", "dh_listing", "dh_rm_nonchild") for x in sess):
+                return True
+            sess = []
+        else:
+            sess.append(o["op"])
+    return False
+
+
 def oracle_dh(case, obs):
     """C09 on drillhole groups: an operation on a hole / its data changes, in its own file, only the node of the group that
     stores them (+ types it introduces, or stops using); the other workspace's file is untouched; a cross-workspace copy
@@ -839,6 +903,12 @@ def oracle_dh(case, obs):
             copied.add(op["group"])
         if oc.startswith("error"):
             key = "dh-unexpected-exception"
+            if "KeyError" in oc and "'ID'" in oc and _polluted_session(case["ops"][: i + 1]):
+                # recorded defect (C04 lookup-miss-appends-empty-record): get_concatenated_attributes(unknown uid) appends an
+                # empty record in memory; when the SAME session also changes something, the flush writes the empty record and
+                # the next open fails.  A session of look-ups only is not explained by it.
+                fails.append({"key": "dh-lookup-miss-appends-empty-record", "what": f"op {i} {op}: {oc[:200]}"})
+                break
             if op["op"] == "reopen" and copied and any(o["op"] in ("dh_rm", "hole", "hole_data", "dh_update") for o in case["ops"][:i]):
                 # recorded defect: a cross-workspace copy of a drillhole group shares its concatenated attribute records with
                 # the source; an edit of the source shows through in the copy, whose file is then written inconsistently
@@ -850,13 +920,31 @@ def oracle_dh(case, obs):
             if miss[0]:
                 fails.append({"key": "dh-types-missing-after-close", "what": f"op {i}: file 0 refers to types that are not under Types: {miss[0][:3]}"})
                 return fails
-            if miss[1]:
+            if miss[1] and not any(f["key"] == "dh-copy-target-types-swept" for f in fails):
+                # the recorded defect concerns the copy-target file only; it must not hide what happens to the SOURCE file later
+                # in the same history (file 0 and file 1 are independent), so the scan goes on
                 fails.append({"key": "dh-copy-target-types-swept", "what": f"op {i}: the copy-target file refers to types that are not under Types: {miss[1][:3]}"})
+        if op["op"] == "reopen" and oc == "done":
+            # "Opening and closing a workspace without any mutation changes nothing": a session that only looked things up
+            j = i - 1
+            while j >= 0 and case["ops"][j]["op"] == "dh_lookup_miss":
+                j -= 1
+            if j < i - 1 and (j < 0 or case["ops"][j]["op"] == "reopen") and obs["digests"][j + 1] != obs["digests"][i + 1]:
+                ch = [sorted(p for p in set(a) | set(b) if a.get(p) != b.get(p))[:3] for a, b in zip(obs["digests"][j + 1], obs["digests"][i + 1])]
+                fails.append({"key": "dh-mutation-free-session-changed-file", "what": f"ops {j + 1}..{i}: only look-ups ran, yet the files differ after close + open: {ch}"})
                 return fails
         if oc != "done" or op["op"] == "reopen":
             continue
         info = st["info"]
         w = info.get("ws", 0)
+        if info.get("no_mutation"):
+            for fi in (0, 1):
+                before, after = obs["digests"][i][fi], obs["digests"][i + 1][fi]
+                ch = sorted(p for p in set(before) | set(after) if before.get(p) != after.get(p))
+                if ch:
+                    fails.append({"key": "dh-no-op-changed-file", "what": f"op {i} {op} must not change anything; file {fi} changed: {ch[:4]}"})
+                    return fails
+            continue
         for fi in (0, 1):
             before, after = obs["digests"][i][fi], obs["digests"][i + 1][fi]
             changed = {p for p in set(before) | set(after) if before.get(p) != after.get(p)}
